@@ -189,6 +189,9 @@ def bor_bool(a, b):
 
 def eq(a, b):
     """Equality of two values of the same (arbitrary) type."""
+    if has_opaque(a) or has_opaque(b):
+        # two opaque values are never known to be equal, however alike their descriptions
+        return ('opaque', 'comparison of values outside the modelled vocabulary')
     if a == b:
         return TRUE
     if is_numeric(a) and is_numeric(b):
@@ -700,6 +703,26 @@ def children(t):
                                 yield y
                         elif isinstance(y[0], tuple):   # (atom, coef) pair of a linear form
                             yield y[0]
+
+
+def tree_size(t, cap=1 << 30):
+    """number of nodes of t as a tree (shared sub-objects counted once per occurrence), computed over the DAG; saturates at cap"""
+    memo = {}
+
+    def go(x):
+        k = id(x)
+        r = memo.get(k)
+        if r is not None:
+            return r
+        n = 1
+        for c in children(x):
+            n += go(c)
+            if n >= cap:
+                n = cap
+                break
+        memo[k] = n
+        return n
+    return go(t)
 
 
 def subterms(t):
